@@ -17,6 +17,8 @@ type Assume struct {
 	declPos int
 	t       Term
 	why     string
+	tag     string // definition that a discharged helper lemma may replace
+	heapAx  bool // heap well-formedness axiom: only needed once something has been allocated
 }
 
 type Obligation struct {
@@ -27,8 +29,13 @@ type Obligation struct {
 	Goal     Term // must be valid under the assumptions visible at (declPos, assumePos)
 	declPos  int
 	asmPos   int
+	allocs   int
 	Pos      token.Position
 	Note     string
+	DropTag  string        // helper: the definition its lemma replaces in users
+	Helper   bool          // auxiliary lemma: never a violation by itself
+	noHelpers bool
+	Helpers  []*Obligation // lemmas assumed (when discharged) while deciding this obligation
 	WantSat  bool // cover / vacuity queries: expected answer is sat
 	Ctx      *Ctx
 	// result
@@ -67,6 +74,7 @@ type Ctx struct {
 	floatFP  bool // interpret float32/64 arithmetic with SMT FloatingPoint
 	epochs     []epochInfo
 	epochCache map[string]Term
+	defCache   map[string]string
 }
 
 const birthBase = 1000000
@@ -75,7 +83,7 @@ const globalBase = 1000
 func NewCtx(w *World, intMode bool) *Ctx {
 	c := &Ctx{W: w, intMode: intMode, strLits: map[string]Term{}, memSort: map[string]string{},
 		memInit: map[string]Term{}, globals: map[*ssa.Global]Term{}, assumed: map[string]bool{},
-		ufDecl: map[string]bool{}, sites: map[string]int{}, depthCap: 8, epochCache: map[string]Term{}}
+		ufDecl: map[string]bool{}, sites: map[string]int{}, depthCap: 8, epochCache: map[string]Term{}, defCache: map[string]string{}}
 	if intMode {
 		c.idxSort = SInt
 	} else {
@@ -110,7 +118,12 @@ func (c *Ctx) Def(prefix string, t Term) Term {
 	if len(t.S) < 24 && !strings.Contains(t.S, "ite") {
 		return t
 	}
+	key := t.Sort + "|" + t.S
+	if n, ok := c.defCache[key]; ok {
+		return Term{S: n, Sort: t.Sort}
+	}
 	n := c.fresh(prefix)
+	c.defCache[key] = n
 	c.decls = append(c.decls, fmt.Sprintf("(define-fun %s () %s %s)", n, t.Sort, t.S))
 	return Term{S: n, Sort: t.Sort}
 }
@@ -157,7 +170,7 @@ func (c *Ctx) siteName(kind string) string {
 func (c *Ctx) Oblige(kind, label string, cond, goal Term, pos token.Position, note string) *Obligation {
 	g := Implies(cond, goal)
 	o := &Obligation{Name: c.fn + "#" + kind + "." + label, Kind: kind, Func: c.fn, Property: c.property,
-		Goal: g, declPos: len(c.decls), asmPos: len(c.assumes), Pos: pos, Note: note, Ctx: c}
+		Goal: g, declPos: len(c.decls), asmPos: len(c.assumes), allocs: c.nextObj, Pos: pos, Note: note, Ctx: c}
 	c.obls = append(c.obls, o)
 	return o
 }
@@ -165,7 +178,7 @@ func (c *Ctx) Oblige(kind, label string, cond, goal Term, pos token.Position, no
 // Cover registers a satisfiability (non-vacuity) query.
 func (c *Ctx) Cover(label string, cond Term, pos token.Position) *Obligation {
 	o := &Obligation{Name: c.fn + "#cover." + label, Kind: "cover", Func: c.fn, Property: c.property,
-		Goal: cond, declPos: len(c.decls), asmPos: len(c.assumes), Pos: pos, WantSat: true, Ctx: c}
+		Goal: cond, declPos: len(c.decls), asmPos: len(c.assumes), allocs: c.nextObj, Pos: pos, WantSat: true, Ctx: c}
 	c.obls = append(c.obls, o)
 	return o
 }
@@ -194,14 +207,31 @@ func (o *Obligation) QueryF(withModel bool, dropQuant bool) string {
 		sb.WriteString(d)
 		sb.WriteByte('\n')
 	}
+	drop := map[string]bool{}
+	for _, h := range o.Helpers {
+		if h.Verdict == "discharged" && h.DropTag != "" && !o.noHelpers {
+			drop[h.DropTag] = true
+		}
+	}
 	for _, a := range c.assumes[:o.asmPos] {
 		if a.declPos > o.declPos {
+			continue
+		}
+		if a.tag != "" && drop[a.tag] {
+			continue
+		}
+		if a.heapAx && o.allocs == 0 {
 			continue
 		}
 		if dropQuant && (strings.Contains(a.t.S, "(forall ") || strings.Contains(a.t.S, "(exists ")) {
 			continue
 		}
 		sb.WriteString("(assert " + a.t.S + ")\n")
+	}
+	for _, h := range o.Helpers {
+		if h.Verdict == "discharged" && !o.noHelpers {
+			sb.WriteString("(assert " + h.Goal.S + ") ; lemma " + h.Name + "\n")
+		}
 	}
 	if o.WantSat {
 		sb.WriteString("(assert " + o.Goal.S + ")\n")
